@@ -15,7 +15,7 @@ REQUIRED_BRANCHES = [
     "read: root built by introduceMerge with a segment with deletions before another",
     "file-merge", "mem-merge", "merge: root changed since planning",
     "equiv-snapshot", "equiv-snapshot of an older content", "direct-snapshot",
-    "read at a gate", "held reader re-read", "read: root built by introduceMerge", "read: root built by introducePersist",
+    "read at a gate", "held reader re-read", "past root re-read", "read: root built by introduceMerge", "read: root built by introducePersist",
     "segment-dropped",
     # every gate of every phase was the place of at least one reader view (distribution keys of the harness)
     "read-at: at=mm:planned", "read-at: at=mm:written", "read-at: at=mm:loaded", "read-at: at=mm:introduced", "read-at: at=mm:snapwritten",
